@@ -120,6 +120,12 @@ func (V *Verifier) load(patterns []string) error {
 		if err != nil {
 			return err
 		}
+		// contracts for dependency packages whose SOURCE is verified too (not assumed): /verif/stdcheck/<pkg>.contract
+		if extra := filepath.Join(filepath.Dir(V.stdlibDir), "stdcheck", p.Name+".contract"); fileExists(extra) {
+			if err := parseContractFile(extra, p.Name, pc); err != nil {
+				return err
+			}
+		}
 		V.contractsByName[p.Name] = pc
 	}
 	// assumed contracts of dependencies
@@ -198,7 +204,11 @@ func (V *Verifier) verifyFunc(fi *FuncInfo, fct *FuncContract) (res *FuncResult)
 	// precondition confines the expression to these values, which is itself an obligation)
 	all := &FuncResult{Name: fi.Pkg.Name + "." + fi.Key}
 	am := map[string]bool{}
-	for _, v := range fct.Split.Values {
+	vals := append([]string(nil), fct.Split.Values...)
+	if fct.Split.Else {
+		vals = append(vals, "else")
+	}
+	for _, v := range vals {
 		V.splitValue = v
 		r := V.verifyFuncMode(fi, fct, 0)
 		V.splitValue = ""
@@ -216,13 +226,15 @@ func (V *Verifier) verifyFunc(fi *FuncInfo, fct *FuncContract) (res *FuncResult)
 		}
 		all.Inlined, all.Callees, all.WeakFrames = r.Inlined, r.Callees, r.WeakFrames
 	}
-	// completeness of the split: outside the listed values the precondition is unsatisfiable
-	V.splitValue = "*"
-	r := V.verifyFuncMode(fi, fct, 0)
-	V.splitValue = ""
-	for _, ob := range r.Obls {
-		if ob.Kind == "split-complete" {
-			all.Obls = append(all.Obls, ob)
+	// completeness of the split: outside the listed values the precondition is unsatisfiable (not needed with an else case)
+	if !fct.Split.Else {
+		V.splitValue = "*"
+		r := V.verifyFuncMode(fi, fct, 0)
+		V.splitValue = ""
+		for _, ob := range r.Obls {
+			if ob.Kind == "split-complete" {
+				all.Obls = append(all.Obls, ob)
+			}
 		}
 	}
 	for a := range am {
@@ -352,7 +364,15 @@ func (V *Verifier) verifyFuncMode(fi *FuncInfo, fct *FuncContract, ceUnroll int)
 			res.Obls = fc.obls
 			return res
 		}
-		st.facts = st.facts.push(sEq(e, V.splitValue))
+		if V.splitValue == "else" {
+			var ds []string
+			for _, v := range fct.Split.Values {
+				ds = append(ds, sNot(sEq(e, sIntLit(v))))
+			}
+			st.facts = st.facts.push(sAnd(ds...))
+		} else {
+			st.facts = st.facts.push(sEq(e, sIntLit(V.splitValue)))
+		}
 	}
 	// vacuity cover: the precondition must be satisfiable
 	cover := &Obligation{Name: fc.Name + "/pre-sat", Kind: "pre-sat", Func: fc.Name, Decls: append([]string(nil), fc.decls...), Facts: st.facts.slice(), Goal: "false", Expect: "sat"}
@@ -630,6 +650,9 @@ func (st *State) runAnchor(anchor string, pos token.Pos) {
 		return
 	}
 	for i, c := range a.Clauses {
+		if !st.clauseInScope(c, pos, anchor) {
+			continue // mentions a local that does not exist on this path (e.g. an early return before its declaration)
+		}
 		switch c.Kind {
 		case "assert":
 			env := fc.newSpecEnv(st, nil, fc.entrySnap, pos, fc.Name+"/at "+anchor)
@@ -954,4 +977,62 @@ func contractIdents(fct *FuncContract) []string {
 	}
 	sort.Strings(out)
 	return out
+}
+
+func sIntLit(v string) string {
+	if strings.HasPrefix(v, "-") {
+		return "(- " + v[1:] + ")"
+	}
+	return v
+}
+
+// clauseInScope: every identifier of the clause resolves on this path.
+func (st *State) clauseInScope(c *Clause, pos token.Pos, anchor string) bool {
+	if anchor != "end" {
+		return true
+	}
+	ids := map[string]bool{}
+	collectIdents(c.Expr, ids)
+	for _, e := range c.List {
+		collectIdents(e, ids)
+	}
+	env := st.fc.newSpecEnv(st, nil, st.fc.entrySnap, pos, "scope probe")
+	for name := range ids {
+		if _, ok := env.lookup(name); ok {
+			continue
+		}
+		if env.scope != nil {
+			if _, obj := env.scope.LookupParent(name, token.NoPos); obj != nil {
+				if _, isVar := obj.(*types.Var); isVar {
+					return false
+				}
+			}
+		}
+		// a local of an inner scope (loop variable) that is not live on this path
+		if st.fc.isLocalName(name) {
+			return false
+		}
+		if strings.HasPrefix(name, "idx") || strings.HasPrefix(name, "tr_") || strings.HasPrefix(name, "ntr_") {
+			return false // loop index ghost of a loop that was not reached
+		}
+	}
+	return true
+}
+
+func (fc *FuncCtx) isLocalName(name string) bool {
+	found := false
+	ast.Inspect(fc.Decl, func(n ast.Node) bool {
+		if id, ok := n.(*ast.Ident); ok && id.Name == name {
+			if _, isVar := fc.Pkg.Info.Defs[id].(*types.Var); isVar {
+				found = true
+			}
+		}
+		return !found
+	})
+	return found
+}
+
+func fileExists(p string) bool {
+	_, err := os.Stat(p)
+	return err == nil
 }
